@@ -54,6 +54,16 @@ def cases(draw, tier):
     roots = [{'name': 'r0', 'steps': [{'op': 'scope', 'name': 'S', 'children': kids, 'body': [], 'catch': True}]}, spin]
     start = draw(st.sampled_from([0, 0, -1, -2, -3.5, 1.5, 7])) if not floaty else \
         draw(st.floats(-1000, 1000, allow_nan=False))
+    if not floaty and draw(st.integers(0, 7)) == 0:
+        # extreme but exactly representable magnitudes: a late clock and/or a tiny period
+        start = draw(st.sampled_from([2.0 ** 40, 2.0 ** 30 + 0.5, 4096.0, -2.0 ** 35]))
+        tiny = draw(st.sampled_from([2.0 ** -20, 2.0 ** -10, 1, 0.25]))
+        for k in kids:
+            for s_ in k['steps']:
+                tk = s_['body'][0] if s_['op'] == 'until' else s_
+                if tk['op'] in ('interval', 'delay') and tk['p'] > 0:
+                    tk['p'] = tiny
+                    tk['durs'] = [draw(st.sampled_from([None, 0, tiny / 2, tiny])) for _ in tk['durs']]
     return {'prog': {'start': start, 'objs': {}, 'roots': roots}, 'floaty': floaty}
 
 
